@@ -149,7 +149,7 @@ func idxCrumb(breadcrumbs string, idx int) string {
 	return fmt.Sprintf("%s[%d]", breadcrumbs, idx)
 }
 
-func addNestedTypes(typeName string, allTypes TypeSet, typeSet TypeSet) {
+func addNestedTypes(ctx context.Context, typeName string, allTypes TypeSet, typeSet TypeSet) error {
 	// We're not interested in array semantics here
 	iBracket := strings.Index(typeName, "[")
 	if iBracket >= 0 {
@@ -159,10 +159,17 @@ func addNestedTypes(typeName string, allTypes TypeSet, typeSet TypeSet) {
 	t, ok := allTypes[typeName]
 	if ok && typeSet[typeName] == nil {
 		typeSet[typeName] = t
-		for _, tm := range t {
-			addNestedTypes(tm.Type, allTypes, typeSet)
+		for i, tm := range t {
+			if tm == nil {
+				// e.g. a JSON null in the member list
+				return i18n.NewError(ctx, signermsgs.MsgEIP712UnsupportedStrType, fmt.Sprintf("%s (member %d is null)", typeName, i))
+			}
+			if err := addNestedTypes(ctx, tm.Type, allTypes, typeSet); err != nil {
+				return err
+			}
 		}
 	}
+	return nil
 }
 
 func keccak256(b []byte) ethtypes.HexBytes0xPrefix {
@@ -182,7 +189,9 @@ func encodeType(ctx context.Context, typeName string, allTypes TypeSet) (Type, s
 	}
 
 	depSet := make(TypeSet)
-	addNestedTypes(typeName, allTypes, depSet)
+	if err := addNestedTypes(ctx, typeName, allTypes, depSet); err != nil {
+		return nil, "", err
+	}
 	typeEncoded := depSet.Encode(typeName)
 	log.L(ctx).Tracef("encodeType(%s): %s", typeName, typeEncoded)
 	return t, typeEncoded, nil
